@@ -257,11 +257,15 @@ pub fn reader_event(data: &[u8], sh: bool, sched: &[Resp], is_async: bool, cap: 
 }
 /// C08 event: the same bytes and the same schedule through both readers
 pub fn pair_event(data: &[u8], sh: bool, sched: &[Resp]) -> J {
-    let (bl, _) = slice_session(data, sh, sched, false, None);
-    let (al, _) = slice_session(data, sh, sched, true, None);
-    let bm = message_session(data, sh, sched, false, None);
-    let am = message_session(data, sh, sched, true, None);
-    json!({"op": "pair", "sh": sh, "stream": proj::bytes(data), "sched": sched_json(sched), "blog": bl, "alog": al, "bm": bm, "am": am})
+    pair_event_with(data, sh, sched, None, None)
+}
+/// ... with a reader capacity (both readers built by with_capacity) and a filter handed to read_message
+pub fn pair_event_with(data: &[u8], sh: bool, sched: &[Resp], cap: Option<usize>, cfg: Option<&DltFilterConfig>) -> J {
+    let (bl, _) = slice_session(data, sh, sched, false, cap);
+    let (al, _) = slice_session(data, sh, sched, true, cap);
+    let bm = message_session(data, sh, sched, false, cfg);
+    let am = message_session(data, sh, sched, true, cfg);
+    json!({"op": "pair", "sh": sh, "cap": cap.unwrap_or(0), "flt": proj::opt(&cfg, |c| proj::filter_config(c)), "stream": proj::bytes(data), "sched": sched_json(sched), "blog": bl, "alog": al, "bm": bm, "am": am})
 }
 
 /// streams built around special shapes: a message whose own header spells a storage / serial pattern; a stored message whose
@@ -451,8 +455,40 @@ pub fn record(mode: &str, seed: u64, n: usize, out: &mut Out) {
                 let data = if i % 40 == 13 { special_stream(&mut r, sh) } else if i % 8 == 5 { hostile_stream(&mut r, sh) } else if i % 16 == 3 { pow2_stream(&mut r, sh) } else { random_stream(&mut r, sh) };
                 let sched = random_sched(&mut r);
                 out.calls += 4;
-                out.emit(pair_event(&data, sh, &sched), data.len() > 8);
+                // every third pair with a filter, two in five with explicit capacities (as in the sessions of mode "blocking")
+                let cfg = if i % 3 == 0 { Some(slice::random_filter(&mut r, None)) } else { None };
+                let o = if sh { 16 } else { 0 };
+                let mut maxdecl = o + 4;
+                for p in 0..data.len().saturating_sub(o + 3) { let d = o + ((data[p + o + 2] as usize) << 8 | data[p + o + 3] as usize); if d > maxdecl { maxdecl = d; } }
+                let cap = if i % 5 == 0 { Some(65551 + r.below(100) as usize) } else if i % 5 == 1 && maxdecl < 400 { Some(maxdecl + r.below(40) as usize) } else { None };
+                out.emit(pair_event_with(&data, sh, &sched, cap, cfg.as_ref()), data.len() > 8);
             }
+            // every hostile piece of one base message as the head of its own stream, read in one go and byte by byte
+            for _ in 0..(n / 50).max(1) {
+                for (piece, psh) in slice::hostile_inputs(&mut r, 24) {
+                    if piece.is_empty() || piece.len() > 2000 { continue; }
+                    let mut data = piece.clone();
+                    data.extend(gen::ser(&gen::message(&mut r, &MsgOpts { storage: Some(psh), big: 4, max_args: 1 })));
+                    let sched = if r.coin() { vec![Resp::Bytes(usize::MAX)] } else { vec![Resp::Bytes(1)] };
+                    out.calls += 4;
+                    out.emit(pair_event(&data, psh, &sched), true);
+                }
+            }
+            // systematic families on one small stream: every fragment size, two-fragment patterns with pending polls, a pending poll before every byte
+            let sh = r.coin();
+            let mut data = gen::ser(&gen::message(&mut r, &MsgOpts { storage: Some(sh), big: 4, max_args: 1 }));
+            data.extend(gen::ser(&gen::message(&mut r, &MsgOpts { storage: Some(sh), big: 4, max_args: 1 })));
+            let len = data.len();
+            for a in 1..len.min(48) {
+                out.calls += 8;
+                out.emit(pair_event(&data, sh, &[Resp::Bytes(a)]), true);
+                let b = 1 + (a * 7) % (len - a).max(1);
+                out.emit(pair_event(&data, sh, &[Resp::Bytes(a), Resp::Retry, Resp::Bytes(b), Resp::Retry]), true);
+                // the same stream cut short after a bytes (a truncated tail at every position)
+                out.emit(pair_event(&data[..a], sh, &[Resp::Bytes(3), Resp::Retry]), true);
+            }
+            let inter: Vec<Resp> = (0..2 * len).map(|i| if i % 2 == 0 { Resp::Retry } else { Resp::Bytes(1) }).collect();
+            out.emit(pair_event(&data, sh, &inter), true);
         }
         _ => panic!("unknown reader mode {}", mode),
     }
@@ -467,7 +503,11 @@ pub fn rerun(ev: &J) -> J {
             let cap = match ev["cap"].as_u64().unwrap_or(0) { 0 => None, c => Some(c as usize) };
             reader_event(&data, sh, &sched, ev["async"].as_bool().unwrap(), cap, cfg.as_ref())
         }
-        "pair" => pair_event(&data, sh, &sched),
+        "pair" => {
+            let cfg: Option<DltFilterConfig> = ev.get("flt").and_then(|f| f.as_array()).and_then(|a| a.first()).map(unproj::filter_config);
+            let cap = match ev.get("cap").and_then(|c| c.as_u64()).unwrap_or(0) { 0 => None, c => Some(c as usize) };
+            pair_event_with(&data, sh, &sched, cap, cfg.as_ref())
+        }
         _ => json!({"op": "unknown"}),
     }
 }
